@@ -129,6 +129,7 @@ def check_resumes(sc, res, ticks=True):
     """generic: exact resume lists for the fibers named in sc.expect['resumes'] (+ items that must still be available)"""
     probs = []
     sig = sc.expect.get("sig")
+    ticks = ticks and not sc.expect.get("no_ticks")
     for f, exp in sc.expect.get("resumes", {}).items():
         got = [g[:2] for g in resumes(res["lines"], f)]
         exp = [tuple(e) for e in exp]
